@@ -267,6 +267,9 @@ func main() {
 		for a := range fc.assumptions {
 			fr.Assumptions = append(fr.Assumptions, a)
 		}
+		if c.Restricted != "" {
+			fr.Assumptions = append(fr.Assumptions, fmt.Sprintf("contract of %s covers only part of the function (%s): calls outside its pre-conditions are not covered; return sites they cut off are reported as dead:return#N (proved unreachable)", fc.fnName(), c.Restricted))
+		}
 		sort.Strings(fr.Assumptions)
 		for a := range fc.trusted {
 			fr.TrustedUsed = append(fr.TrustedUsed, a)
@@ -328,6 +331,22 @@ func main() {
 		}(i, o)
 	}
 	wg.Wait()
+	// restricted contracts: a return site that the pre-conditions make unreachable is accepted (and reported as proved
+	// dead) as long as some return site of the function is reachable
+	reach := map[string]bool{}
+	for i, o := range obls {
+		if o.Cover && results[i].Status != "unsat" {
+			reach[o.Func] = true
+		}
+	}
+	for i, o := range obls {
+		if o.Cover && o.Restricted && results[i].Status == "unsat" && reach[o.Func] {
+			results[i].Cover = false
+			results[i].Kind = "dead"
+			results[i].Name = strings.Replace(results[i].Name, "cover:", "dead:", 1)
+			results[i].File = ""
+		}
+	}
 	// second chance for a few undecided obligations: the first pass runs 14 solver portfolios at once, and a
 	// query that needs most of its budget can time out under that load. They are re-run three at a time with
 	// three times the budget, so that a pass does not depend on machine load.
